@@ -81,7 +81,10 @@ def merge_order(deps: Deps, e: ast.AST, depth: int = 6, _stack: frozenset = froz
     if isinstance(e, (ast.ListComp, ast.GeneratorExp, ast.SetComp, ast.DictComp)):
         if len(e.generators) != 1:
             return TOP
-        return merge_order(deps, e.generators[0].iter, depth - 1)
+        sub = merge_order(deps, e.generators[0].iter, depth - 1)
+        if sub is not TOP and e.generators[0].ifs:
+            return [t + "?filtered" for t in sub]  # not every element of the source takes part
+        return sub
     if isinstance(e, ast.Name):
         owner = deps.owner(e.id)
         v = deps.single_value(e.id)
@@ -275,6 +278,14 @@ def loop_as_comp(fi, name: str) -> VirtualComp | None:
                 filtered = True
                 fexpr = ast.UnaryOp(op=ast.Not(), operand=body[0].test)
                 body = body[1:]
+            # a partition loop: `if t: a.append(x) else: b.append(y)` - the store into `name` with its path condition
+            if len(body) == 1 and isinstance(body[0], ast.If) and body[0].orelse and not filtered:
+                hit = _find_store(body[0], name, [])
+                if hit is not None:
+                    st_, conds = hit
+                    fexpr_ = conds[0] if len(conds) == 1 else ast.BoolOp(op=ast.And(), values=conds)
+                    loops.append((n, st_, True, fexpr_, st_))
+                    continue
             # leading per-iteration temporaries (`validated_key = key_validator(key)`) are substituted into the store
             temps: dict[str, ast.AST] = {}
             while len(body) > 1 and isinstance(body[0], (ast.Assign, ast.AnnAssign)) and getattr(body[0], "value", None) is not None:
@@ -306,6 +317,34 @@ def loop_as_comp(fi, name: str) -> VirtualComp | None:
             if any((isinstance(t, ast.Subscript) and is_name(t.value, name)) or is_name(t, name) for t in tg):
                 return None
     return VirtualComp(loops[0][0], inits[0], loops[0][4], loops[0][2], loops[0][3])
+
+
+def _is_store_into(st: ast.stmt, name: str) -> bool:
+    if isinstance(st, ast.Assign) and len(st.targets) == 1 and isinstance(st.targets[0], ast.Subscript) and is_name(st.targets[0].value, name):
+        return True
+    return isinstance(st, ast.Expr) and isinstance(st.value, ast.Call) and isinstance(st.value.func, ast.Attribute) and is_name(st.value.func.value, name) and st.value.func.attr in ("append", "add", "extend") and len(st.value.args) == 1
+
+
+def _find_store(node: ast.If, name: str, conds: list[ast.AST]) -> tuple[ast.stmt, list[ast.AST]] | None:
+    """The single store into `name` inside nested if/else of simple statements, with the conditions leading to it."""
+    found: list[tuple[ast.stmt, list[ast.AST]]] = []
+
+    def walk(stmts: list[ast.stmt], cs: list[ast.AST]) -> bool:
+        for st in stmts:
+            if isinstance(st, ast.If):
+                if not walk(st.body, cs + [st.test]) or not walk(st.orelse, cs + [ast.UnaryOp(op=ast.Not(), operand=st.test)]):
+                    return False
+            elif _is_store_into(st, name):
+                found.append((st, cs))
+            elif isinstance(st, (ast.Expr, ast.Assign, ast.AnnAssign, ast.Pass)):
+                continue  # stores into the other partitions / temporaries
+            else:
+                return False  # break / continue / return / loops: not a plain partition
+        return True
+
+    if not walk([node], conds) or len(found) != 1:
+        return None
+    return found[0]
 
 
 def _subst(node: ast.AST, temps: dict[str, ast.AST]) -> ast.AST:
